@@ -122,7 +122,18 @@ def _rnn(gates, acts):
 
 def _label_encoder(param):
     items = {"int64s": [2, 1, 3], "floats": [0.5, 1.5, 0.1], "strings": ["a", "ü", "b"]}
-    suffix = param.split("_", 1)[1]
+    import numpy as np
+
+    suffix = param.split("_", 1)[1] if "_" in param else ""
+    if param == "keys_tensor":
+        return {"in": {"X": ("int64", (3,))}, "attrs": {"values_floats": [9.5, 8.5, 7.5]}, "items": [np.array([3, -1, 2], dtype=np.int64)]}
+    if param == "values_tensor":
+        return {"in": {"X": ("int64", (3,))}, "attrs": {"keys_int64s": [4, 5, 6]}, "items": [np.array([1.5, -0.0, 2.5], dtype=np.float32)]}
+    if param == "default_tensor":
+        return {"in": {"X": ("int64", (3,))}, "attrs": {"keys_int64s": [4, 5, 6], "values_floats": [9.5, 8.5, 7.5]},
+                "items": [np.array([1.5], dtype=np.float32)]}
+    if suffix not in items:
+        return {"in": {"X": ("int64", (3,))}, "attrs": {"keys_int64s": [4, 5, 6], "values_floats": [9.5, 8.5, 7.5]}}
     if param.startswith("keys_"):
         return {"in": {"X": ({"int64s": "int64", "floats": "float32", "strings": "str"}[suffix], (3,))},
                 "attrs": {"values_floats": [9.5, 8.5, 7.5]} if suffix != "floats" else {"values_int64s": [9, 8, 7]},
@@ -472,6 +483,26 @@ def judge_list(a, kind, name, exp_items, ordered_items):
     return None
 
 
+def judge_propagated(var, kind, exp_items):
+    """Constant(value_ints/floats/strings): the propagated value is the 1-d int64 / float32 / str tensor of the items."""
+    import numpy as np
+
+    try:
+        v = var._get_value()
+    except Exception:  # noqa: BLE001  (not observable: not a verdict)
+        return None
+    want = {"ints": lambda: np.array([int(x) for x in exp_items], dtype=np.int64),
+            "floats": lambda: np.array([f32_bits(float(x)) for x in exp_items], dtype=np.uint32).view(np.float32),
+            "strings": lambda: np.array([str(x) for x in exp_items], dtype=np.str_)}[kind]()
+    v = np.asarray(v)
+    same = v.shape == (len(exp_items),) and (
+        (kind == "strings" and v.dtype.kind == "U" and list(v) == list(want)) or
+        (kind != "strings" and v.dtype == want.dtype and v.tobytes() == want.tobytes()))
+    if not same:
+        return "propagated", f"propagated value {v.dtype}{list(v.shape)} {v.tolist()[:8]}, handed over {list(exp_items)[:8]}"
+    return None
+
+
 def run_list_case(synth: Synth, row, rows_of_ctor, way, mutate=True):
     """-> None (ok) | ('skip', why) | (part, what).  part in missing/kind/items/capture/raises:<Exc>"""
     kind = LIST_KIND[row["cls"]]
@@ -495,10 +526,12 @@ def run_list_case(synth: Synth, row, rows_of_ctor, way, mutate=True):
     except Exception as e:  # noqa: BLE001
         return (f"raises:{type(e).__name__}", f"build after {row['ctor']}({row['param']}=<{way} of {items}>) raised {type(e).__name__}: {str(e)[:120]}")
     bad = judge_list(a, kind, row["name"], exp, items)
+    if bad is None and row["ctor"] == "constant" and exp is not None:
+        bad = judge_propagated(outs[0], kind, exp)
     if bad is None:
         return None
     part, what = bad
-    if mutate and mut is not None and part in ("items", "missing"):
+    if mutate and mut is not None and part in ("items", "missing", "propagated"):
         again = run_list_case(synth, row, rows_of_ctor, way, mutate=False)
         if again is None:
             return ("capture", f"{row['ctor']}({row['param']}=<{way} of {items}>): after the caller mutated its {way} source, {what}")
@@ -643,4 +676,110 @@ def run_tensors_case(A, form, way, mutate=True):
         if mutate and run_tensors_case(A, form, way, mutate=False) is None:
             part = "capture"
         return (part, f"{desc}: embedded {seen}, handed over {want}")
+    return None
+
+
+# ------------------------------------------------------------------------ dtype and tensor attributes
+DTYPE_WAYS = ["type", "np_dtype", "name", "char", "builtin", "array_dtype"]
+DTYPE_CANDS = ["float32", "int64", "float64", "int32", "bool", "float16"]
+
+
+def run_dtype_case(synth: Synth, row, rows_of_ctor, way):
+    """`cast(x, to=…)`, `random_normal(dtype=…)`, `eye_like(dtype=…)` …: every spelling of a numpy element type embeds the
+    ONNX enum of that type."""
+    import numpy as np
+
+    base = synth.find(row, rows_of_ctor, [np.dtype(d).type for d in DTYPE_CANDS])
+    if base is None:
+        return ("skip", synth.base.get(("why", row["mod"], row["ctor"], row["param"]), "no building call found"))
+    shape, alt, others, v, rec = base
+    d = np.dtype(v)
+    builtin = {"float64": float, "int64": int, "bool": bool}.get(d.name)
+    x = {"type": d.type, "np_dtype": d, "name": d.name, "char": d.str, "builtin": builtin,
+         "array_dtype": np.zeros(1, dtype=d).dtype}[way]
+    if x is None:
+        return ("skip", "way not applicable")
+    desc = f"{row['ctor']}({row['param']}={x!r})"
+    try:
+        outs, args = synth.call(row["mod"], row, shape, alt, {**others, row["param"]: x}, rec)
+        a = find_attr(synth.build(outs, args), row["opcls"].lstrip("_"), row["name"])
+    except Exception as e:  # noqa: BLE001
+        return (f"raises:{type(e).__name__}", f"{desc} raised {type(e).__name__}: {str(e)[:120]} (the numpy type itself is accepted)")
+    want = W.ONNX_ENUM["bool" if d.name == "bool" else d.name]
+    if a is None or a["name"] != row["name"] or a["type"] != W.ATTR_TYPE["INT"] or a["i"] != want:
+        return ("value", f"{desc}: embedded {None if a is None else (a['name'], a['type'], a['i'])}, expected ({row['name']!r}, INT, {want} = ONNX {d.name})")
+    return None
+
+
+TENSOR_WAYS = ["array", "strided", "fortran", "readonly", "np_scalar", "bigendian"]
+
+
+def _tensor_cands():
+    import numpy as np
+
+    return [np.array([1.5, -0.0, 2.5], dtype=np.float32), np.array([3, -1, 2], dtype=np.int64), np.array([1.5], dtype=np.float32),
+            np.array([3], dtype=np.int64), np.array([1, 0, 2], dtype=np.uint8), np.array([1.5, 0.25, 2.5], dtype=np.float64),
+            np.array(["a", "ü"]), np.array([1], dtype=np.int32)]
+
+
+def run_tensor_case(synth: Synth, row, rows_of_ctor, way):
+    """every tensor attribute of every constructor: layouts of the same array, and a mutation of the caller's array
+    between the call and the build."""
+    import numpy as np
+
+    base = synth.find(row, rows_of_ctor, _tensor_cands())
+    if base is None:
+        return ("skip", synth.base.get(("why", row["mod"], row["ctor"], row["param"]), "no building call found"))
+    shape, alt, others, v, rec = base
+    ref = np.array(v)
+    if way == "array":
+        x = ref.copy()
+    elif way == "strided":
+        big = np.zeros(ref.size * 2, dtype=ref.dtype)
+        big[::2] = ref
+        x = big[::2]
+    elif way == "fortran":
+        x = np.asfortranarray(ref.copy())
+    elif way == "readonly":
+        x = ref.copy()
+        x.setflags(write=False)
+    elif way == "np_scalar":
+        if ref.size != 1:
+            return ("skip", "way not applicable")
+        x = ref.reshape(())[()]
+        ref = ref.reshape(())
+    elif way == "bigendian":
+        if ref.dtype.kind not in "iuf" or ref.dtype.itemsize == 1:
+            return ("skip", "way not applicable")
+        x = ref.astype(ref.dtype.newbyteorder(">"))
+    else:
+        raise ValueError(way)
+    desc = f"{row['ctor']}({row['param']}=<{way} {ref.dtype}{list(ref.shape)}>)"
+    try:
+        outs, args = synth.call(row["mod"], row, shape, alt, {**others, row["param"]: x}, rec)
+    except Exception as e:  # noqa: BLE001
+        if way == "np_scalar":
+            return None  # a 0-d tensor may be refused by the operator's shape inference
+        return (f"raises:{type(e).__name__}", f"{desc} raised {type(e).__name__}: {str(e)[:120]} (the same values as a plain array are accepted)")
+    mutated = False
+    if isinstance(x, np.ndarray) and x.flags.writeable and x.size:
+        x[...] = x[::-1].copy() if x.ndim == 1 and x.size > 1 else x
+        x.flat[0] = "zz" if ref.dtype.kind == "U" else 7
+        mutated = True
+    try:
+        a = find_attr(synth.build(outs, args), row["opcls"].lstrip("_"), row["name"])
+    except Exception as e:  # noqa: BLE001
+        return (f"raises:{type(e).__name__}", f"build after {desc} raised {type(e).__name__}: {str(e)[:120]}")
+    if a is None or a["type"] != W.ATTR_TYPE["TENSOR"] or a["t"] is None:
+        return ("kind", f"{desc}: attribute {None if a is None else (a['name'], a['type'])}, expected a TENSOR named {row['name']!r}")
+    t = W.tensor(a["t"])
+    if ref.dtype.kind == "U":
+        want = ("str", list(ref.shape), [list(str(s).encode("utf-8")) for s in ref.ravel()])
+        got = (t["dtype"], t["dims"], [list(s) for s in t.get("strs", [])])
+    else:
+        le = ref.astype(ref.dtype.newbyteorder("<")).ravel()
+        want = (ref.dtype.name, list(ref.shape), [int(w) for w in le.view(f"<u{ref.dtype.itemsize}")])
+        got = (t["dtype"], t["dims"], t.get("words"))
+    if got != want:
+        return ("capture" if mutated else "value", f"{desc}{' after the caller mutated its array' if mutated else ''}: embedded {got}, handed over {want}")
     return None
